@@ -34,7 +34,7 @@ RULE = (
     "group, group_cm, group_* metrics, groupwise(name|callable), swap, bootstrap_sample under replacement/single_pass/dynamic x "
     "None/by_label/by_group with adoption of samples into the pool, bootstrap_metric('group_*')) with 0-3 planned faults. "
     "Non-trivial: >= 2 operations or >= 1 fault fired; distinct = distinct abstract trace signatures."
-    "Later rounds added: 11-24 groups, large adjacent integer ids, keyword-like and whitespace-variant labels, containers, copy/pickle steps, "
+     " Later rounds added: 11-24 groups, large adjacent integer ids, keyword-like and whitespace-variant labels, containers, copy/pickle steps, "
     "raising / type-varying / user-named callables for groupwise, unsigned and integer score dtypes, pos_label variants."
 )
 COMPONENTS = {
